@@ -84,6 +84,7 @@ type op struct {
 }
 
 type thread struct {
+	low     bool // scheduled after every normal thread in the canonical order
 	id      int
 	wake    chan struct{}
 	pend    *op
@@ -118,8 +119,9 @@ type sched struct {
 	ex      *Exec
 	seq     int
 	chans   map[uintptr]*chanState
-	horizon int
-	abort   bool
+	horizon  int
+	abort    bool
+	progress int // host-visible progress markers (part of the livelock state hash)
 }
 
 // S is the active scheduler; nil means free mode.
@@ -695,6 +697,30 @@ func Step(name string) {
 // PanicHook, when set in free mode, receives panics of goroutines started through Go.
 var PanicHook func(msg string)
 
+// GoLow starts a low-priority thread: in the canonical order it comes after every normal
+// thread, so by default it runs only when nothing else can (used for environment threads
+// such as the host's canceller: "cancel at point k" is then exactly one deviation).
+func GoLow(f func()) {
+	s := S
+	if s == nil || s.abort {
+		go f()
+		return
+	}
+	nt := &thread{id: len(s.threads), wake: make(chan struct{}), low: true}
+	s.threads = append(s.threads, nt)
+	nt.pend = &op{name: "Start", visible: true}
+	go s.body(nt, f)
+	s.yield(&op{name: "Go", visible: true})
+}
+
+// Steps returns the number of scheduling steps executed so far in this execution.
+func Steps() int {
+	if S == nil {
+		return 0
+	}
+	return S.ex.Steps
+}
+
 // Go replaces the go statement.
 func Go(f func()) {
 	s := S
@@ -794,8 +820,17 @@ func (s *sched) isEnabled(t *thread) bool {
 	return t.pend.enabled()
 }
 
+// Progress marks host-visible progress (output written, trigger registered): a sleeping
+// poller observing such progress is not in a livelock.
+func Progress() {
+	if s := S; s != nil {
+		s.progress++
+	}
+}
+
 func (s *sched) stateHash() string {
 	var b strings.Builder
+	fmt.Fprintf(&b, "p%d;", s.progress)
 	for _, t := range s.threads {
 		if t.fin {
 			fmt.Fprintf(&b, "%d:fin;", t.id)
@@ -839,7 +874,12 @@ func Run(horizon int, body func()) *Exec {
 			en = append(en, s.cur)
 		}
 		for _, t := range s.threads {
-			if t != s.cur && s.isEnabled(t) {
+			if t != s.cur && !t.low && s.isEnabled(t) {
+				en = append(en, t)
+			}
+		}
+		for _, t := range s.threads {
+			if t != s.cur && t.low && s.isEnabled(t) {
 				en = append(en, t)
 			}
 		}
